@@ -384,7 +384,7 @@ func (c *Check) Finish() {
 		"rule":                c.Rule,
 		"samples":             c.p.Samples,
 		"inconclusive":        len(c.p.Inconclusive),
-		"held":                c.p.Evals - len(c.p.Inconclusive),
+		"conclusive":          c.p.Evals - len(c.p.Inconclusive),
 	}
 	if len(c.p.Samples) == 0 {
 		cov["samples"] = []any{}
@@ -400,6 +400,9 @@ func (c *Check) Finish() {
 		cov["inconclusive_reasons"] = rs
 	}
 	for k, v := range c.p.Counters {
+		if _, clash := cov[k]; clash {
+			k = "count_" + k // never let a counter overwrite a schema key such as "samples"
+		}
 		cov[k] = v
 	}
 	for k, m := range c.sets {
